@@ -103,6 +103,9 @@ struct xv_tmg_s {
 /* ghost constants (never assigned): bound to entry values by requires clauses */
 int xv_g_nregs; const void *xv_g_ptr, *xv_g_ptr2;
 
+#ifndef XV_NODES_MAX
+#define XV_NODES_MAX 34           /* longest answer list explored (get_ips reads at most 32 + 1 nodes) */
+#endif
 /* ---- c-ares model ------------------------------------------------------------------------------------------------------------ */
 struct xv_ar_s {
     unsigned inits, destroys, gai_n, process_fd_n, process_n, getsock_n, timeout_n, free_n, cb_n;
